@@ -76,6 +76,11 @@ Theorem C15_key_permutations_are_similar : forall m m1 m',
 Proof. exact ysim_perm. Qed.
 Print Assumptions C15_key_permutations_are_similar.
 
+Theorem C15_similarity_is_an_equivalence :
+  (forall v, ysim v v) /\ (forall a b, ysim a b -> ysim b a) /\ (forall a b c, ysim a b -> ysim b c -> ysim a c).
+Proof. exact (conj ysim_refl (conj ysim_sym ysim_trans)). Qed.
+Print Assumptions C15_similarity_is_an_equivalence.
+
 Theorem C15_model_key_order : forall sp v v', ysim v v' ->
   match run_yaml sp v, run_yaml sp v' with
   | Ok n, Ok n' => n = n'
